@@ -399,7 +399,10 @@ def _expr(self, e):
 build.ModBuilder.expr = _expr
 
 
-def after_failed_parent(rec, label, design):
+UNGUARDED = ("retarget-after-success", "signal-width-after-success", "retarget", "signal-width")
+
+
+def after_failed_parent(rec, label, design, skip=()):
     """History-dependent faults: a valid design's sub-modules also sit under ANOTHER parent whose elaboration fails very late (an
     instance array with an unconnected port is only found by the post-flattening connection check).  Afterwards the designer adds a
     fault to a sub-module (or something that needs the early passes: an instance array).  Whatever is then exported for that
@@ -411,7 +414,10 @@ def after_failed_parent(rec, label, design):
         return
     for fault in ("width", "missing-port", "array", "foreign-signal", "reconnect-width", "disconnect", "reconnect-after-success", "disconnect-after-success",
                   "reconnect-by-replace-width", "reconnect-by-setattr-width", "reconnect-by-call-width",
-                  "reconnect-by-replace-after-success", "reconnect-by-setattr-after-success", "reconnect-by-call-after-success"):
+                  "reconnect-by-replace-after-success", "reconnect-by-setattr-after-success", "reconnect-by-call-after-success",
+                  "retarget-after-success", "signal-width-after-success", "retarget", "signal-width"):
+        if fault in skip:
+            continue
         try:
             built = build.build(copy.deepcopy(design))
         except Exception:
@@ -464,7 +470,18 @@ def after_failed_parent(rec, label, design):
                     continue
                 inst = insts[0]
                 port = next(iter(inst.conns))
-                if fault.startswith("reconnect"):
+                if fault.startswith("retarget"):
+                    # `inst.of` is an ordinary attribute: give the instance a target with another set of ports
+                    have = set(getattr(inst.of, "ports", {}))
+                    new_of = build.leaf_call("E5", 992) if have != {"z"} else build.leaf_call("E2", 992)
+                    inst.of = new_of
+                elif fault.startswith("signal-width"):
+                    # `Signal.width` too: widen a signal that feeds a port
+                    sigs = [c for c in inst.conns.values() if isinstance(c, h.Signal)]
+                    if not sigs:
+                        continue
+                    sigs[0].width = sigs[0].width + 1
+                elif fault.startswith("reconnect"):
                     w = getattr(inst.conns[port], "width", 1) or 1
                     fw = other.add(h.Signal(width=w + 1), name="fw")
                     if "-by-replace-" in fault:
@@ -498,8 +515,17 @@ def after_failed_parent(rec, label, design):
                 what = f"the added instance array is missing from the exported package ({names})"
             else:
                 what = "returned instead of raising"
+            when = "after its own elaboration had succeeded" if fault.endswith("-after-success") else "after another parent's elaboration failed late"
+            if fault in UNGUARDED:
+                # edits through plain attributes (`inst.of = ...`, `sig.width = ...`): one mechanism, whatever the call and the moment
+                attr = "of" if fault.startswith("retarget") else "width"
+                rec.violation("illformed-accepted:unguarded-attribute-edit",
+                              f"[{label}] {when}, sub-module {subs[-1]} was edited through the plain attribute `{attr}` "
+                              f"({'an instance given a target with other ports' if attr == 'of' else 'a connected signal widened'}): {call} {what}",
+                              case=case, attribute=attr)
+                continue
             rec.violation(f"illformed-accepted:after-failed-parent:{fault}:{call}",
-                          f"[{label}] after another parent's elaboration failed late, a {fault} fault added to sub-module {subs[-1]}: {call} {what}",
+                          f"[{label}] {when}, a {fault} fault added to sub-module {subs[-1]}: {call} {what}",
                           case=case, fault=fault, calls=call)
 
 
